@@ -89,6 +89,7 @@ Stylesheet::Stylesheet(
     m_stylesheetRoot(root),
     m_baseIdent(baseIdentifier,constructionContext.getMemoryManager()),
     m_keyDeclarations(constructionContext.getMemoryManager()),
+    m_keyNamespaces(constructionContext.getMemoryManager()),
     m_whitespaceElements(constructionContext.getMemoryManager()),
     m_XSLTNamespaceURI(constructionContext.getXSLTNamespaceURI(),constructionContext.getMemoryManager()),
     m_imports(constructionContext.getMemoryManager()),
@@ -366,11 +367,31 @@ Stylesheet::processKeyElement(
             Constants::ATTRNAME_USE.c_str());
     }
 
+    // Keep the namespace declarations that are in scope for the element,
+    // outermost first.  They are needed when the key table is built, to
+    // expand the QNames that the expressions only resolve when evaluated.
+    m_keyNamespaces.resize(m_keyNamespaces.size() + 1);
+
+    NamespaceVectorType&    theNamespaces = m_keyNamespaces.back();
+
+    for (NamespacesStackType::const_iterator i = m_namespaces.begin();
+            i != m_namespaces.end();
+                ++i)
+    {
+        for (NamespaceVectorType::const_iterator j = (*i).begin();
+                j != (*i).end();
+                    ++j)
+        {
+            theNamespaces.push_back(*j);
+        }
+    }
+
     m_keyDeclarations.push_back(
         KeyDeclaration(
             *theQName,
             *matchAttr,
             *useAttr,
+            theNamespaces,
             m_baseIdent,
             XalanLocator::getLineNumber(locator),
             XalanLocator::getColumnNumber(locator)));
